@@ -1995,7 +1995,10 @@ class Cache:
                         warnings.warn(message, EmptyDirWarning)
 
                         if fix:
-                            os.rmdir(dirpath)
+                            # Also prune the parents this leaves empty (as
+                            # Disk.remove does); stops at the cache
+                            # directory, which holds the database.
+                            os.removedirs(dirpath)
 
                 # Check Settings.count against count of Cache rows.
 
